@@ -8,6 +8,10 @@ returned by typhon must equal the longdouble reference computed once from the
 INITIAL coordinates (1 cm / 1e-7 deg, longitude modulo 360). That covers
 inverse-ness, agreement of direct and composed routes and path independence.
 Part "radii": ellipsoid_r_geodetic / ellipsoid_r_geocentric on h = 0 points.
+Every part also gives the arguments in the representations of
+c07_common.REPRS (Python int, int64 arrays, float32 scalars and arrays), one
+argument at a time and all together; what is demanded is what is demanded for
+the same values as float64.
 Parts "poslos" and "dist": see c07_poslos.py and c07_distance.py.
 """
 import itertools
@@ -19,8 +23,10 @@ driver.setup_env()
 import numpy as np
 
 from checks import c07_ref as ref
-from checks.c07_common import (FAR_LONGITUDES, LATTICES, compare, conform,
-                                same)
+from checks.c07_common import (FAR_LONGITUDES, HALF_DEGREES, LATTICES,
+                                REPR_MODES, as_float64, compare, conform,
+                                exact, quantize, represent,
+                                representation_key, same, subsets)
 
 PROP = "C07"
 LEVEL = "exploration"
@@ -35,14 +41,20 @@ RULE = ("graph: 6 ellipsoids + WGS84 as default argument x start node "
         "array shapes of the geodetic and geocentric start hold 4 more "
         "longitudes outside [-180, 180] (-270, 270, 359.999, 360). With "
         "paths of 1..2 calls (only the first call sees the argument): these "
-        "4 longitudes x all lat x all heights as scalar calls, and the "
-        "integral lattice points with |lat| < 88, 0 <= h <= 10 km, start "
-        "coordinates rounded to whole numbers, as Python ints and as int64 "
-        "arrays. One case = one (input block, path), compared at its end "
+        "4 longitudes x all lat x all heights as scalar calls. "
+        "Representations {Python int scalars; int64 1-D, 2-D arrays; float32 "
+        "scalars, 1-D, 2-D arrays}: the lattice points (plus lat/lon -45.5, "
+        "30.5) with |lat| < 88, 0 <= h <= 10 km whose lat/lon/h are exact in "
+        "the representation (whole numbers; float32-exact), start "
+        "coordinates rounded to it, x argument positions {each of the 3 "
+        "alone: 1 call; all 3: paths of 1..2 calls}. One case = one (input "
+        "block, path), compared at its end "
         "node with the longdouble reference of the initial coordinates. "
         "Non-trivial = path of >= 2 calls (a composition). radii: 6 "
         "ellipsoids x every (lat, lon) of the lattice as scalars + once as "
-        "arrays; non-trivial = eccentric ellipsoid off the equator. poslos: "
+        "arrays + the exact latitudes in the 6 representation/form "
+        "combinations; non-trivial = eccentric ellipsoid off the equator. "
+        "poslos: "
         "r x lat x lon x za x aa (quick 3x8x8x5x7, thorough 3x14x12x8x10) "
         "as scalars, 1-D, 5-D, broadcast axes and scalar+azimuth vector; "
         "plus per radius aa in {0, 180} x all za (meridian) and za in {0.01, "
@@ -50,9 +62,20 @@ RULE = ("graph: 6 ellipsoids + WGS84 as default argument x start node "
         "as scalars and as one array; "
         "every call with array arguments is repeated with the cartesian "
         "line of sight scaled by 1e-3 and by 7; non-trivial = off "
-        "equator/prime meridian, za != 90, |aa| != 90. dist: all ordered "
+        "equator/prime meridian, za != 90, |aa| != 90; part repr: lattice "
+        "c07_poslos.REPR_AXES (quick 2x3x4x3x3 float32-exact points, the "
+        "whole-numbered ones for int/int64) x 6 representation/form "
+        "combinations x argument positions {each alone, all} for the 5 "
+        "spherical arguments (forward + round trip) and for the 6 cartesian "
+        "arguments of cartposlos2geocentric (position and 1000 x line of "
+        "sight rounded to the representation, against the oracle), every "
+        "such case non-trivial. dist: all ordered "
         "pairs (scalar, 1-D, 2-D, broadcast calls; 4 longitude shifts) and "
         "all ordered triples of a 40 (quick) / 96 (thorough) point lattice; "
+        "the pair checks again on c07_distance.REPR_LATTICES (quick 4 x 5 "
+        "points; whole-numbered ones for int/int64) for 6 "
+        "representation/form combinations x positions {lat1, lon1, lat2, "
+        "lon2, r alone, all 5}; "
         "non-trivial = all points of the pair/triple differ. All cases are "
         "distinct by construction (products without repetition).")
 ASSUMPTIONS = [
@@ -82,14 +105,28 @@ ASSUMPTIONS = [
     "a line of sight is a direction: cartposlos2geocentric has to return "
     "the same angles for every positive multiple of (dx, dy, dz) (its "
     "docstring: 'normalizing the los-vector')",
+    "number representations: Python int, int64 and float32 (not int32/int16, "
+    "float16, 0-d arrays); only values exact in the representation; the "
+    "conversions, radii and POS/LOS functions must meet the statement's "
+    "absolute tolerances (1 cm, 1e-7 deg, 1e-6 deg) whatever the "
+    "representation; the distances, which have no absolute tolerance in the "
+    "statement, get the conditioning bounds of float32 arithmetic whenever "
+    "an argument is float32; the triangle inequality is checked for "
+    "float64 arguments only",
+    "a violation of a representation case that the same values given as "
+    "float64 do not produce is reported as "
+    "'<function>/wrong-with-<representation>-arguments'; in the graph part "
+    "single arguments in another representation are followed for 1 call",
 ]
 
 SHAPES = ("scalar", "flat", "grid", "bcast")
-# Python ints / int64 arrays, and scalar calls with a longitude outside
-# [-180, 180] (the array shapes hold these longitudes anyway). Only the first
-# call of a path sees such an argument - every result is a float with a
-# longitude in [-180, 180] - so paths of <= 2 calls cover them.
-INT_SHAPES = ("int-scalar", "int-flat")
+# The other representations of c07_common.REPRS ("repr/int/scalar", ...), and
+# scalar calls with a longitude outside [-180, 180] (the array shapes hold
+# these longitudes anyway). Only the first call of a path sees such an
+# argument - every result is a float with a longitude in [-180, 180] - so
+# paths of <= 2 calls cover them (1 call where a single argument is given in
+# the other representation).
+REPR_SHAPES = tuple("repr/%s/%s" % mode for mode in REPR_MODES)
 FAR_SCALAR = "far-scalar"
 SHORT_MAXLEN = 2
 DEFAULT = "WGS84 (default argument)"
@@ -135,7 +172,7 @@ def shards(tier, seed):
         out += [("graph", tier, name, start, shape, None, maxlen)
                 for shape in SHAPES[1:]]
         out += [("graph", tier, name, start, shape, None, SHORT_MAXLEN)
-                for shape in INT_SHAPES + (FAR_SCALAR,) * (start != "C")]
+                for shape in REPR_SHAPES + (FAR_SCALAR,) * (start != "C")]
     out += [("radii", tier, name) for name in names if name != DEFAULT]
     from checks import c07_distance, c07_poslos
     out += c07_poslos.shards(tier, seed)
@@ -164,14 +201,48 @@ def initial_coordinates(start, a, e, lat, lon, h):
 class Item:
     """One input block (scalars or arrays) with its reference triples."""
 
-    def __init__(self, label, coords, reference):
+    def __init__(self, label, coords, reference, maxlen=None):
         self.label = label
         self.coords = coords
         self.ref = reference
         self.shape = reference["C"][0].shape
+        self.maxlen = maxlen        # None: the path length of the shard
+
+
+def repr_items(tier, ell_ae, start, rep, form):
+    """The lattice points whose coordinates are exact in `rep`, with the
+    start coordinates rounded to it, in every subset of argument positions."""
+    a, e = ell_ae
+    lats, lons, heights = LATTICES[tier]
+    if start != "C" and form != "scalar":   # scalars: shape FAR_SCALAR
+        lons = lons + FAR_LONGITUDES
+    # rounding moves a point by < 1 m (float32 at Jupiter's radius: 4 m), so
+    # stay inside the stated domain
+    lats = [v for v in exact(rep, lats + HALF_DEGREES) if abs(v) < 88]
+    heights = [v for v in exact(rep, heights) if 0 <= v <= 10e3]
+    lat, lon, h = np.meshgrid(lats, exact(rep, lons + HALF_DEGREES), heights,
+                              indexing="ij")
+    coords = initial_coordinates(start, a, e, lat, lon, h)
+    # lon = +-180 coincide once rounded
+    points = dict.fromkeys(zip(*(quantize(rep, c.ravel()).tolist()
+                                 for c in coords)))
+    columns = tuple(np.array(c) for c in zip(*points))
+    full = ref.reference(a, e, start, columns)
+    out = []
+    for which in subsets(3):
+        maxlen = None if len(which) == 3 else 1
+        for n, args in enumerate(represent(columns, which, rep, form)):
+            pick = (lambda v: v[n]) if form == "scalar" else \
+                (lambda v: v.reshape(args[0].shape))
+            out.append(Item(len(out), args,
+                            {k: tuple(pick(v) for v in t)
+                             for k, t in full.items()}, maxlen))
+    return out
 
 
 def items(tier, ell_ae, start, shape, row):
+    if shape in REPR_SHAPES:
+        return repr_items(tier, ell_ae, start, *shape.split("/")[1:])
     a, e = ell_ae
     lats, lons, heights = LATTICES[tier]
     if shape == FAR_SCALAR:
@@ -180,23 +251,14 @@ def items(tier, ell_ae, start, shape, row):
         lats = lats[row:row + 1]
     elif start != "C":          # a cartesian position has no longitude
         lons = lons + FAR_LONGITUDES
-    if shape in INT_SHAPES:
-        # integral lattice points; rounding the start coordinates to whole
-        # metres moves a point by < 1 m, so stay inside the stated domain
-        lats = [v for v in lats if v == int(v) and abs(v) < 88]
-        lons = [v for v in lons if v == int(v)]
-        heights = [v for v in heights if v == int(v) and 0 <= v <= 10e3]
     if shape != "bcast":
         lat, lon, h = np.meshgrid(lats, lons, heights, indexing="ij")
         coords = initial_coordinates(start, a, e, lat, lon, h)
         if shape == "grid":
             return [Item(0, coords, ref.reference(a, e, start, coords))]
         coords = tuple(c.ravel() for c in coords)
-        if shape in INT_SHAPES:     # lon = +-180 coincide once rounded
-            points = dict.fromkeys(zip(*(np.rint(c).tolist() for c in coords)))
-            coords = tuple(np.array(c, dtype=np.int64) for c in zip(*points))
         full = ref.reference(a, e, start, coords)
-        if shape in ("flat", "int-flat"):
+        if shape == "flat":
             return [Item(0, coords, full)]
         return [Item(n, tuple(c[n].item() for c in coords),
                      {k: tuple(v[n] for v in t) for k, t in full.items()})
@@ -261,16 +323,25 @@ def step(ell, item, fname, dst, args):
     return out, bad
 
 
-def follow(ell, item, start, path):
-    """Executes one path; first violation or None."""
-    node, args = start, item.coords
-    for fname in path:
-        dst = dict(EDGES[node])[fname]
-        args, bad = step(ell, item, fname, dst, args)
-        if bad:
-            return bad
-        node = dst
-    return None
+def follow(ell, item, start, path, shape):
+    """Executes one path; first violation or None. A violation of a "repr"
+    shape that the same values given as float64 do not produce is attributed
+    to the representation."""
+    for coords in (item.coords, as_float64(item.coords)):
+        node, args, bad = start, coords, None
+        for fname in path:
+            dst = dict(EDGES[node])[fname]
+            args, bad = step(ell, item, fname, dst, args)
+            if bad:
+                break
+            node = dst
+        if coords is item.coords:
+            first = bad
+            if not (bad and shape in REPR_SHAPES):
+                return bad
+    if bad:
+        return first
+    return (representation_key(first[0], shape.split("/")[1]),) + first[1:]
 
 
 def walk(res, ctx, item, node, args, path):
@@ -284,8 +355,10 @@ def walk(res, ctx, item, node, args, path):
             res.count("graph_calls_at_initial_guess_1rad")
         out, bad = step(ell, item, fname, dst, args)
         if bad:
-            if not same(follow(ell, item, case["start"], here), bad):
+            again = follow(ell, item, case["start"], here, case["shape"])
+            if again is None or not same(again[1:], bad[1:]):
                 res.error("NONDETERMINISM in %r %r" % (case, here))
+            bad = again or bad
             res.violation(bad[0], dict(case, item=item.label,
                                        path=list(here)), *bad[1:])
             # the paths extending a failed one cannot be walked
@@ -302,8 +375,8 @@ def run_graph(shard):
     res = driver.ShardResult()
     case = dict(part="graph", lattice=tier, ellipsoid=name, start=start,
                 shape=shape, row=row)
-    ctx = (ell, ae[1] > 0, maxlen, case)
     for item in items(tier, ae, start, shape, row):
+        ctx = (ell, ae[1] > 0, item.maxlen or maxlen, case)
         walk(res, ctx, item, start, item.coords, ())
     res.sample(dict(case, item=item.label, coords=item.coords,
                     maxlen=maxlen))
@@ -325,17 +398,22 @@ def check_radii(ell, lat, lon):
     try:
         r_gd = geodesy.ellipsoid_r_geodetic(ell, lat)
         r_gc = geodesy.ellipsoid_r_geocentric(ell, latc)
+        r_gc_same = geodesy.ellipsoid_r_geocentric(ell, lat)
         point = geodesy.geodetic2cart(0.0, lat, lon, ell)
         r_t, latc_t, _ = geodesy.cart2geocentric(*point)
         r_gc_t = geodesy.ellipsoid_r_geocentric(ell, latc_t)
     except Exception as exc:
         return ("exception/radii/" + type(exc).__name__, None, repr(exc), "")
     # the functions against the closed forms
-    bad = compare((r_gd, r_gc),
+    # (r_gc_same: the latitude as given, i.e. in its representation, taken
+    # as a geocentric one)
+    bad = compare((r_gd, r_gc, r_gc_same),
                   (ref.radius_at_geodetic(a, e, lat),
-                   ref.radius_at_geocentric(a, e, latc)),
-                  ("ellipsoid_r_geodetic", "ellipsoid_r_geocentric"),
-                  ("m", "m"), shape, "radii")
+                   ref.radius_at_geocentric(a, e, latc),
+                   ref.radius_at_geocentric(a, e, lat)),
+                  ("ellipsoid_r_geodetic", "ellipsoid_r_geocentric",
+                   "ellipsoid_r_geocentric"),
+                  ("m", "m", "m"), shape, "radii")
     if bad:
         return bad
     # the statement literally: |point on the ellipsoid| = both radii
@@ -349,10 +427,27 @@ def check_radii(ell, lat, lon):
 
 
 def radii_cases(tier):
-    points = list(itertools.product(*LATTICES[tier][:2]))
+    """(kind, lat, lon); kind = "scalar", "array" (float64) or "rep/form"
+    with the latitude in a representation of c07_common.REPRS."""
+    lats, lons = LATTICES[tier][:2]
+    points = list(itertools.product(lats, lons))
     yield from (("scalar", la, lo) for la, lo in points)
     lat, lon = (np.array(v) for v in zip(*points))
     yield ("array", lat, lon)
+    for rep, form in REPR_MODES:
+        columns = tuple(np.array(v) for v in zip(*itertools.product(
+            exact(rep, lats + HALF_DEGREES), exact(rep, lons))))
+        for la, lo in represent(columns, (0,), rep, form):
+            yield (rep + "/" + form, la, lo)
+
+
+def radii_verdict(ell, kind, lat, lon):
+    """check_radii; a violation that the same latitudes given as float64 do
+    not produce is attributed to the representation."""
+    bad = check_radii(ell, lat, lon)
+    if bad and "/" in kind and not check_radii(ell, *as_float64((lat, lon))):
+        bad = (representation_key(bad[0], kind.split("/")[0]),) + bad[1:]
+    return bad
 
 
 def run_radii(shard):
@@ -361,12 +456,13 @@ def run_radii(shard):
     res = driver.ShardResult()
     for kind, lat, lon in radii_cases(tier):
         res.case(nontrivial=ell[1] > 0 and bool(np.any(np.abs(lat) > 1e-6)))
-        bad = check_radii(ell, lat, lon)
+        bad = radii_verdict(ell, kind, lat, lon)
         if bad:
-            if not same(check_radii(ell, lat, lon), bad):
+            if not same(radii_verdict(ell, kind, lat, lon), bad):
                 res.error("NONDETERMINISM in radii %r" % name)
-            res.violation(bad[0], dict(part="radii", ellipsoid=name,
-                                       kind=kind, lat=lat, lon=lon),
+            res.violation(bad[0], dict(part="radii", lattice=tier,
+                                       ellipsoid=name, kind=kind, lat=lat,
+                                       lon=lon),
                           *bad[1:])
     res.sample(dict(part="radii", ellipsoid=name, kind=kind,
                     points=np.size(lat)))
@@ -400,13 +496,16 @@ def replay(case):
         ell, ae = ellipsoids()[case["ellipsoid"]]
         item = items(case["lattice"], ae, case["start"], case["shape"],
                      case["row"])[case["item"]]
-        return outcome(follow(ell, item, case["start"], case["path"]))
+        return outcome(follow(ell, item, case["start"], case["path"],
+                              case["shape"]))
     if part == "radii":
         ell = ellipsoids()[case["ellipsoid"]][0]
-        lat, lon = case["lat"], case["lon"]
-        if case["kind"] == "array":
-            lat, lon = np.array(lat), np.array(lon)
-        return outcome(check_radii(ell, lat, lon))
+        # the recorded values are those of the case with this kind and size
+        lat, lon = next((la, lo) for kind, la, lo in radii_cases(
+            case["lattice"]) if kind == case["kind"]
+            and np.array_equal(la, case["lat"])
+            and np.array_equal(lo, case["lon"]))
+        return outcome(radii_verdict(ell, case["kind"], lat, lon))
     if part == "poslos":
         from checks import c07_poslos
         return outcome(c07_poslos.replay(case))
